@@ -29,7 +29,8 @@ type source struct {
 	fillers int
 	// static: FetchAll delivers the same records every time (no refresh brings
 	// anything new), so that what a refresh does is expiry bookkeeping only
-	static bool
+	static  bool
+	answers int
 }
 
 func (s *source) setFillers(n int) {
@@ -39,9 +40,14 @@ func (s *source) setFillers(n int) {
 }
 
 func (s *source) rec(pid peer.ID, v int) *model.ProviderInfo {
+	// the ingest status (lag, last error) changes from one answer to the next
+	// also when the advertisement time does not
+	s.answers++
 	return &model.ProviderInfo{
 		AddrInfo:              peer.AddrInfo{ID: pid},
 		LastAdvertisementTime: fmt.Sprintf("2024-01-01T00:%02d:%02dZ", v/60%60, v%60),
+		Lag:                   s.answers % 7,
+		LastError:             fmt.Sprintf("status-%d", s.answers%3),
 		ExtendedProviders: &model.ExtendedProviders{
 			Providers:  []peer.AddrInfo{{ID: pid}},
 			Metadatas:  [][]byte{nil},
@@ -116,8 +122,12 @@ func TestRaceBodies(t *testing.T) {
 						t.Errorf("cached provider missing: %v %v", pi, err)
 						return
 					}
+					// a reader uses the whole record it was given, every field of it
+					if pi, _ := pc.Get(ctx, pP); pi != nil {
+						_ = fmt.Sprint(*pi)
+					}
 					for _, x := range pc.List() {
-						_ = x.LastAdvertisementTime
+						_ = fmt.Sprint(*x)
 					}
 					if res, err := pc.GetResults(ctx, pP, []byte("ctx"), []byte("md")); err != nil || len(res) == 0 {
 						t.Errorf("GetResults: %v %v", res, err)
